@@ -1367,8 +1367,8 @@ def generate(ctx: Ctx, scale: int, rng, thorough=False):
                 ctx.case(("genexp", ta), sample=c2)
                 eval_case(ctx, c2)
                 # $ORIGIN-relative versus absolute: the same expansion with every name written out under the zone origin
-                if osw in ("sub", "sub2", "back", "subrel") and rng.chance(1, 2):
-                    cur = {"sub": "hosts." + o_txt, "sub2": "b.a." + o_txt, "back": o_txt, "subrel": "x." + o_txt}[osw]
+                if osw in ("sub", "sub2", "back") and rng.chance(1, 2):
+                    cur = {"sub": "hosts." + o_txt, "sub2": "b.a." + o_txt, "back": o_txt}[osw]
                     abs_lines = absolutize_expansion(exp, cur)
                     if abs_lines is not None:
                         tcabs = pre.split("$ORIGIN")[0] + "\n".join(abs_lines) + "\n" + (post.replace("after 60 IN PTR tail", f"after.{cur} 60 IN PTR tail.{cur}") if "$ORIGIN" not in post else f"last.{o_txt} 60 IN NS ns1.{o_txt}\n")
@@ -1376,6 +1376,27 @@ def generate(ctx: Ctx, scale: int, rng, thorough=False):
                               "a": l1(ta).hex(), "b": l1(tcabs).hex()}
                         ctx.case(("genabs", ta), sample=None)
                         eval_case(ctx, c3)
+    # --- "$ORIGIN-relative versus absolute names" for the argument of $ORIGIN itself (RFC 1035 5.1: a relative
+    # domain name in a master file, the $ORIGIN argument included, is completed with the current origin)
+    for _ in range(n(24)):
+        origin = rng.choice(ORIGINS[:3])
+        rel = rng.chance(1, 2)
+        o_txt = name_text(origin)
+        pre = "$TTL 3600\n@ IN SOA ns1 hostmaster 1 2 3 4 5\n@ NS ns1\n"
+        cur = o_txt
+        if rng.chance(1, 2):
+            cur = "hosts." + o_txt
+            pre += f"$ORIGIN {cur}\n"
+        lab = rng.choice(["x", "sub", "a.b"])
+        body = rng.choice(["w 60 IN A 10.0.0.1\n", "w 60 IN A 10.0.0.1\nv CNAME w\n", "@ 60 IN TXT \"t\"\n",
+                           "$GENERATE 1-2 g$ 60 PTR h$\n", "p MX 10 q\n$GENERATE 3-4 m$ CNAME p\n"])
+        ta = pre + f"$ORIGIN {lab}\n" + body
+        tb = pre + f"$ORIGIN {lab}.{cur}\n" + body
+        c = {"kind": "spell", "what": "relative-origin-directive", "origin": hexl(origin), "rel": rel,
+             "a": l1(ta).hex(), "b": l1(tb).hex()}
+        ctx.case(("relorigin", ta, rel), sample=c)
+        eval_case(ctx, c)
+
     # --- zones: write then read
     styles = pairwise(rng.fork(3), KNOBS)
     ctx.extra["pairwise_styles"] = len(styles)
@@ -1480,7 +1501,8 @@ LEVEL = {
             "zone/node/rdataset text writer. Proved for all inputs: layout independence of the tokenizer (parentheses, newlines, comments, "
             "tabs; identifiers with escapes, quoted strings); TTL decimal and BIND8-unit forms; the reader = denotation (fold of txn.add) of a "
             "zone-independent parser trace; header spelling equivalences at character level (TTL/class order, inherited class/TTL/owner, "
-            "relative vs absolute names); out-of-zone owners ignored; CNAME exclusivity of every load; $GENERATE index = its expansion line; "
+            "relative vs absolute names); out-of-zone owners ignored; CNAME exclusivity of every load; $GENERATE index = its expansion line and the $GENERATE line = the text of its expansion from any reader state, also after any run of "
+            "$ORIGIN directives (current origin distinct from the zone origin: names completed with the former, stored relative to the latter); "
             "and read_write_lossless: write-then-read is the identity for EVERY lossless style of the model — sorted, want_origin ($ORIGIN, also "
             "read back without being given the origin), default_ttl/$TTL (any value incl. 0), deduplicate_names, owner left-justification and "
             "either justification of the TTL/class/type columns, want_comments, omit_rdclass, want_generic, name-style origin/relativize, hex "
